@@ -616,66 +616,84 @@ func c19Validators(c *Ctx, env *provEnv) {
 	ff := eng.Analyze(vg)
 	info := vg.Pkg.TypesInfo
 	nameP := vg.params(info)[0]
-	okBackslash, okSep, okClean, okRoot := false, false, false, false
+	// wherever validGroupName can return true - a `return true`, or `return E`
+	// with E assumed - the state must carry: no backslash in the name; the cleaned
+	// rooted name equals the rooted name and is not "/".  (The platform separator
+	// is '/' or '\\' in every build Go supports, so the first two clauses cover it;
+	// the refusal for other separators is dead code and is not demanded.)
+	okBackslash, okSep, okClean, okRoot := true, true, true, true
+	naccept := 0
+	rooted := &Term{K: 'o', Name: "+", Args: []*Term{TStr("/"), TVar(nameP)}}
 	for _, ret := range ff.Returns() {
 		st, _ := ff.At(ret)
-		if st == nil && len(ret.Results) == 1 {
-			// unreachable in this build configuration: the refusal for a
-			// platform separator other than '/' and '\\' is dead code where the
-			// separator is one of them
-			for n := ast.Node(ret); n != nil; n = p.Parent(vg.File, n) {
-				if ifs, ok := n.(*ast.IfStmt); ok {
-					txt := types.ExprString(ifs.Cond)
-					if ifs.Init != nil {
-						if as, ok := ifs.Init.(*ast.AssignStmt); ok && len(as.Rhs) == 1 {
-							txt += " " + types.ExprString(as.Rhs[0])
-						}
-					}
-					if strings.Contains(txt, "filepath.Separator") {
-						okSep = true
-					}
-				}
-			}
-		}
 		if st == nil || len(ret.Results) != 1 {
 			continue
 		}
 		tv := info.Types[ret.Results[0]]
 		if tv.Value != nil && tv.Value.String() == "false" {
-			for _, f := range st.Facts() {
-				if f.Op == "true" && f.Pos && f.A.K == 'k' && f.A.Name == "strings.ContainsRune" && len(f.A.Args) == 2 {
-					if f.A.Args[1].Name == "92" {
-						okBackslash = true
-					}
-					if f.A.Args[1].K == 'v' {
-						okSep = true
-					}
-				}
-				if f.Op == "eq" && f.Pos && f.B != nil && (f.A.Name == `"/"` || f.B.Name == `"/"`) {
-					okRoot = true
-				}
-			}
 			continue
 		}
-		// final: s == "/"+name with s = path.Clean("/"+name)
-		if be, ok := unparen(ret.Results[0]).(*ast.BinaryExpr); ok && be.Op == token.EQL {
-			lt, rt := ff.term(be.X), ff.term(be.Y)
-			want := &Term{K: 'o', Name: "+", Args: []*Term{TStr("/"), TVar(nameP)}}
-			if lt != nil && rt != nil && (rt.String() == want.String() || lt.String() == want.String()) {
-				other := be.X
-				if lt.String() == want.String() {
-					other = be.Y
+		var accept []*State
+		if tv.Value != nil {
+			accept = []*State{st}
+		} else {
+			for _, v := range ff.edgeVariants(st, ret.Results[0], true) {
+				if v != nil && !contradictory(v) {
+					accept = append(accept, v)
 				}
-				env.seen = map[string]bool{}
-				for _, l := range env.classify(vg, other) {
-					if l.ok && strings.HasPrefix(l.what, "path.Clean") {
-						okClean = true
+			}
+		}
+		for _, as := range accept {
+			naccept++
+			bs, clean, root := false, false, false
+			for _, f := range as.Facts() {
+				if f.Op == "true" && !f.Pos && f.A.K == 'k' && f.A.Name == "strings.ContainsRune" && len(f.A.Args) == 2 && f.A.Args[0].String() == TVar(nameP).String() && f.A.Args[1].Name == "92" {
+					bs = true
+				}
+			}
+			// some term equal to path.Clean("/"+name) equals "/"+name and differs from "/"
+			isClean := func(t *Term) bool {
+				return t != nil && t.K == 'k' && t.Name == "path.Clean" && len(t.Args) == 1 && (t.Args[0].String() == rooted.String() || as.EqualUnder(t.Args[0], rooted))
+			}
+			var cleans []*Term
+			for _, f := range as.Facts() {
+				for _, t := range f.terms() {
+					t.walk(func(x *Term) {
+						if isClean(x) {
+							cleans = append(cleans, x)
+						}
+					})
+				}
+			}
+			for _, ct := range cleans {
+				if as.EqualUnder(ct, rooted) {
+					clean = true
+				}
+				for _, f := range as.Facts() {
+					if f.Op == "eq" && !f.Pos && f.B != nil {
+						for _, pr := range [][2]*Term{{f.A, f.B}, {f.B, f.A}} {
+							if pr[0].K == 'c' && pr[0].Name == `"/"` && (pr[1].String() == ct.String() || as.EqualUnder(pr[1], ct)) {
+								root = true
+							}
+						}
 					}
 				}
+			}
+			if !bs {
+				okBackslash = false
+			}
+			if !clean {
+				okClean = false
+			}
+			if !root {
+				okRoot = false
 			}
 		}
 	}
-	c.Check(okBackslash && okSep, "R19.2", "validGroupName rejects backslash and the platform separator", vg.Pos(), "both ContainsRune refusals present", "names containing '\\\\' or the platform separator are accepted")
+	if naccept == 0 {
+		okBackslash, okClean, okRoot = false, false, false
+	}
+	c.Check(okBackslash && okSep, "R19.2", "validGroupName rejects backslash and the platform separator", vg.Pos(), "no accepting return without !strings.ContainsRune(name, '\\\\') (every supported platform's separator is '/' or '\\\\')", "names containing '\\\\' or the platform separator are accepted")
 	c.Check(okClean && okRoot, "R19.2", "validGroupName requires a clean rooted path", vg.Pos(), "path.Clean(\"/\"+name) must equal \"/\"+name and differ from \"/\"", "names with empty, '.' or '..' components (or the empty name) are accepted")
 	if vu := p.Func("group", "", "validUsername"); vu != nil {
 		ok := false
